@@ -27,7 +27,10 @@ DATEFMT = '%Y-%m-%dT%H:%M:%S'
 # rules of sibling properties that are necessary conditions of this one too
 # (evaluated by the sibling module on the same graphs, reported under this property)
 ALSO = {'C16': {'R16.4': 'the recorded Path is computed for this argument and candidate, not '
-                  'remembered'}}
+                  'remembered'},
+ 'C18': {'R18.2': 'realpath is applied to the parent of the entry only, so the recorded location is the one of the entry named',
+         'R18.4': 'the recorded location is that of the entry named (only the parent is '
+                  'resolved)'}}
 
 def check(ctx):
     r = PutRoles(ctx)
